@@ -28,14 +28,15 @@ def run(ctx, replay=None):
               dict(shape="two", max_env=1, flags="m,c,o", faults=False, env=ISSUER),
               dict(shape="chain", max_env=3, flags="m,c", faults=False, env="Edit,RemoveConfig,AddConfig")]
     else:
-        mc = [dict(shape="chain", max_env=3), dict(shape="star", max_env=3), dict(shape="two", max_env=3),
-              dict(shape="chain", max_env=3, flagsets="ExpiryFlagSets", env="WideEnv"), dict(shape="star", max_env=2, flagsets="NoAllFlagSets", env="WideEnv"),
-              dict(shape="chain", max_env=2, env="FullEnv", flagsets="NoAllFlagSets"), dict(shape="chain", max_env=3, env="IssuerEnv"),
-              dict(shape="star", max_env=3, env="IssuerEnv"), dict(shape="two", max_env=3, env="IssuerEnv"),
-              dict(shape="chain", max_env=3, env="ConfigEnv"), dict(shape="star", max_env=3, env="ConfigEnv", alt="StarAlt"),
+        # measured (16 cores, loaded): 21.3 M distinct states in 90 min for eleven bounded configurations; the plan below keeps one
+        # configuration per alphabet and shape family (~40 min); the two-roots shape is model-checked by C10 / C14
+        mc = [dict(shape="chain", max_env=3), dict(shape="star", max_env=3),
+              dict(shape="chain", max_env=3, flagsets="ExpiryFlagSets", env="WideEnv"),
+              dict(shape="chain", max_env=2, env="FullEnv", flagsets="NoAllFlagSets"),
+              dict(shape="star", max_env=3, env="IssuerEnv"),
+              dict(shape="chain", max_env=3, env="ConfigEnv"),
               dict(shape="chain", max_env=0, flagsets="AllFlagSets", env="EverythingEnv", simulate="num=4000,depth=100"),
-              dict(shape="star", max_env=0, flagsets="AllFlagSets", env="EverythingEnv", simulate="num=2000,depth=100"),
-              dict(shape="two", max_env=0, flagsets="AllFlagSets", env="EverythingEnv", simulate="num=2000,depth=100")]
+              dict(shape="star", max_env=0, flagsets="AllFlagSets", env="EverythingEnv", simulate="num=2000,depth=100")]
         ex = [dict(shape="chain", max_env=3, flags="m,c,o", extra="a;c,e,m", faults=False),
               dict(shape="star", max_env=2, flags="m,c,o", extra="a", faults=False),
               dict(shape="two", max_env=2, flags="m,c,o", extra="a", faults=False),
@@ -46,7 +47,9 @@ def run(ctx, replay=None):
               dict(shape="two", max_env=2, flags="m,c", faults=False, env=ISSUER),
               dict(shape="chain", max_env=3, flags="m,c", faults=False, env=CONFIG),
               dict(shape="star", max_env=3, flags="m,c", extra="c,m,o", faults=False, env="Edit,RemoveConfig,AddConfig,DeleteArt"),
-              dict(shape="chain", max_env=0, flags="m,c,o,e", extra="a", faults=True, random_walks=4000, walk_len=12, env=FULL),
-              dict(shape="star", max_env=0, flags="m,c,o,e", extra="a", faults=True, random_walks=2000, walk_len=12, env=FULL),
+              # random histories on the real code are cheap (4,000 histories of 12 steps: 12 s): many of them, all shapes
+              dict(shape="chain", max_env=0, flags="m,c,o,e", extra="a", faults=True, random_walks=40000, walk_len=12, env=FULL),
+              dict(shape="star", max_env=0, flags="m,c,o,e", extra="a", faults=True, random_walks=20000, walk_len=12, env=FULL),
+              dict(shape="two", max_env=0, flags="m,c,o,e", extra="a", faults=True, random_walks=20000, walk_len=16, env=FULL),
               dict(shape="chain", max_env=2, flags="m", extra="c,m;c,m,o", faults=False, native=True, env=WIDE)]
     return repo.run_lifecycle(ctx, "C12", mc, ex, "model_checking", ASSUME, replay)
